@@ -127,7 +127,45 @@ Definition redeemer_units (w : list (cbor * cbor)) : option (Z * Z) :=
   | _ => None
   end.
 
-Record txview := { tv_size : Z; tv_fee : Z; tv_coins : list Z; tv_mem : Z; tv_steps : Z }.
+(* a CBOR set: plain array, or tag 258 around an array *)
+Definition set_items (x : cbor) : option (list cbor) :=
+  match x with
+  | CA xs => Some xs
+  | CTag 258 (CA xs) => Some xs
+  | _ => None
+  end.
+
+Definition oref_of (x : cbor) : option oref :=
+  match x with CA [CB i; CU n] => Some (i, n) | _ => None end.
+
+(* the set of references under body key k (absent: empty) *)
+Definition body_refs (k : N) (body : list (cbor * cbor)) : option (list oref) :=
+  match map_get k body with
+  | None => Some []
+  | Some x => match set_items x with Some xs => all_some (map oref_of xs) | None => None end
+  end.
+
+Definition body_hashes (k : N) (body : list (cbor * cbor)) : option (list bytes) :=
+  match map_get k body with
+  | None => Some []
+  | Some x => match set_items x with
+              | Some xs => all_some (map (fun y => match y with CB h => Some h | _ => None end) xs)
+              | None => None
+              end
+  end.
+
+Definition vkey_witnesses (w : list (cbor * cbor)) : option Z :=
+  match map_get 0 w with
+  | None => Some 0
+  | Some x => match set_items x with Some xs => Some (Z.of_nat (List.length xs)) | None => None end
+  end.
+
+Record txview := { tv_size : Z; tv_fee : Z; tv_coins : list Z; tv_mem : Z; tv_steps : Z;
+                   tv_inputs : list oref;        (* body key 0 *)
+                   tv_collateral : list oref;    (* body key 13 *)
+                   tv_refs : list oref;          (* body key 18 *)
+                   tv_required : list bytes;     (* body key 14 *)
+                   tv_nwit : Z }.                (* number of vkey witnesses *)
 
 Definition read_tx (tx : bytes) : option txview :=
   match decode tx with
@@ -135,10 +173,12 @@ Definition read_tx (tx : bytes) : option txview :=
       match map_get 2 body, redeemer_units wit with
       | Some (CU fee), Some (mem, steps) =>
           let outs := match map_get 1 body with Some (CA os) => all_some (map output_coin os) | None => Some [] | _ => None end in
-          match outs with
-          | Some coins => Some {| tv_size := Z.of_nat (List.length tx); tv_fee := Z.of_N fee; tv_coins := coins;
-                                  tv_mem := mem; tv_steps := steps |}
-          | None => None
+          match outs, body_refs 0 body, body_refs 13 body, body_refs 18 body, body_hashes 14 body, vkey_witnesses wit with
+          | Some coins, Some ins, Some coll, Some refs, Some req, Some nw =>
+              Some {| tv_size := Z.of_nat (List.length tx); tv_fee := Z.of_N fee; tv_coins := coins;
+                      tv_mem := mem; tv_steps := steps; tv_inputs := ins; tv_collateral := coll; tv_refs := refs;
+                      tv_required := req; tv_nwit := nw |}
+          | _, _, _, _, _, _ => None
           end
       | _, _ => None
       end
@@ -156,7 +196,9 @@ Record bcase := {
   bc_has_ref : bool;
   bc_buffer : Z;
   bc_ref_builder : Z;          (* builder._ref_script_size() *)
-  bc_ref_ledger : Z;           (* script bytes on all spent and reference inputs, from the scenario's UTxOs *)
+  bc_utxos : list futxo;       (* the scenario's UTxO set: reference, bytes of the script on the output, locking key *)
+  bc_script_keys : list bytes; (* key leaves of the native scripts the scenario runs *)
+  bc_fake_wit : Z;             (* placeholder witnesses in the last fake transaction *)
   bc_omitted : Z;              (* script bytes in the fake witness set that the final witness set omits *)
   bc_has_change : bool;        (* a change address was given: two passes *)
   bc_calls : list estcall;     (* all _estimate_fee calls of the builder, in order *)
@@ -172,6 +214,26 @@ Fixpoint ndiff (a b : list Z) : option nat :=       (* number of positions where
   | x :: a', y :: b' => match ndiff a' b' with Some n => Some (if x =? y then n else S n) | None => None end
   | _, _ => None
   end.
+
+(* what the LEDGER sees: the references are read from the signed bytes and looked up in the UTxO set *)
+Definition ref_ledger (c : bcase) (v : txview) : Z := Touched.ref_script_bytes (bc_utxos c) (tv_inputs v) (tv_refs v).
+Definition needed_wit (c : bcase) (v : txview) : Z :=
+  Z.of_nat (List.length (Touched.needed_keys (bc_utxos c) (tv_inputs v) (tv_collateral v) (tv_required v) (bc_script_keys c))).
+Definition resolved (c : bcase) (v : txview) : bool :=
+  match Touched.resolve_all (bc_utxos c) (tv_inputs v ++ tv_collateral v ++ tv_refs v) with Some _ => true | None => false end.
+
+(* slice models on the UTxOs of the final body: `_ref_script_size()` and `_witness_count()` *)
+Definition ref_model (c : bcase) (v : txview) : option Z :=
+  match Touched.resolve_all (bc_utxos c) (tv_inputs v), Touched.resolve_all (bc_utxos c) (tv_refs v) with
+  | Some ui, Some ur => Some (builder_ref_size ui ur)
+  | _, _ => None
+  end.
+Definition wit_model (c : bcase) (v : txview) : option Z :=
+  match Touched.resolve_all (bc_utxos c) (tv_inputs v), Touched.resolve_all (bc_utxos c) (tv_collateral v) with
+  | Some ui, Some uc => Some (builder_witness_count ui uc (tv_required v) (bc_script_keys c))
+  | _, _ => None
+  end.
+Definition optZ_is (o : option Z) (z : Z) : bool := match o with Some x => x =? z | None => false end.
 
 Definition est_model (c : bcase) (v : txview) (size : Z) : pyval :=
   match g_fee FUEL (bc_ctx c) (VInt size) (VInt (tv_steps v)) (VInt (tv_mem v)) (VInt (bc_ref_builder c)) with
@@ -195,11 +257,18 @@ Definition last2 {A} (l : list A) : option (option A * A) :=
 (* slice correspondence: _estimate_fee = generated fee at the recorded size (+ buffer); placeholder of every fake
    transaction = max(previous fee, generated max fee + buffer); body fee = result of the last call; the signed
    transaction is the last fake transaction with the fee and coin fields replaced (size algebra) and the
-   omitted scripts removed; only the absorbing coin changed, by exactly the fee difference *)
+   omitted scripts removed; only the absorbing coin changed, by exactly the fee difference;
+   `_ref_script_size()` = the model on the UTxOs of the final body; the placeholder witnesses of the last fake
+   transaction = the model's count on the final body = the witnesses of the signed transaction = the keys the ledger
+   asks for (the transaction is signed with the keys it requires: premise of the property) *)
 Definition build_corr (c : bcase) : bool :=
   match read_tx (bc_tx c), last2 (bc_calls c), max_model c with
   | Some v, Some (p1, p2), VInt M =>
       outcome_eqb (est_model c v (ec_size p2)) (VInt (ec_result p2))
+      && optZ_is (ref_model c v) (bc_ref_builder c)
+      && optZ_is (wit_model c v) (bc_fake_wit c)
+      && (tv_nwit v =? bc_fake_wit c)
+      && (tv_nwit v =? needed_wit c v)
       && (tv_fee v =? ec_result p2)
       && (tv_size v =? ec_size p2 - widthZ (ec_placeholder p2) + widthZ (tv_fee v)
                        - Zsumw (ec_coins p2) + Zsumw (tv_coins v) - bc_omitted c)
@@ -223,13 +292,18 @@ Definition build_corr (c : bcase) : bool :=
    That framing is already part of bc_omitted (measured as the difference of the two witness-set encodings), so 16 + 8 spare = 24. *)
 Definition FEW_DOZEN : Z := 24.
 
-(* the property, on the implementation's output only: ledger minimum for the FINAL bytes, the execution units in
-   the final redeemers and ALL reference-script bytes  <=  body fee  <=  minimum + a*(24 + omitted) + 2 + buffer *)
+(* the property, on the implementation's output only: when the transaction carries exactly the witnesses the ledger
+   asks for (premise "signed with the keys it requires"; build_corr reports a run where it does not hold),
+   ledger minimum for the FINAL bytes, the execution units in the final redeemers and the reference-script bytes of
+   ALL outputs the final body spends or references (looked up here, every output once, equal scripts on different
+   outputs each time)  <=  body fee  <=  minimum + a*(24 + omitted) + 2 + buffer *)
 Definition build_oracle (c : bcase) : bool :=
   match read_tx (bc_tx c) with
   | Some v =>
-      let lo := ledger_min_fee (bc_lp c) (bc_has_ref c) (tv_size v) (tv_steps v) (tv_mem v) (bc_ref_ledger c) in
-      (lo <=? tv_fee v)
-      && (tv_fee v <=? lo + Ledger.la (bc_lp c) * (FEW_DOZEN + bc_omitted c) + 2 + bc_buffer c)
+      resolved c v &&
+      (negb (tv_nwit v =? needed_wit c v) ||
+       let lo := ledger_min_fee (bc_lp c) (bc_has_ref c) (tv_size v) (tv_steps v) (tv_mem v) (ref_ledger c v) in
+       (lo <=? tv_fee v)
+       && (tv_fee v <=? lo + Ledger.la (bc_lp c) * (FEW_DOZEN + bc_omitted c) + 2 + bc_buffer c))
   | None => false
   end.
